@@ -4,7 +4,7 @@
  *         all nobj 1..30 x groups 1..nobj x seeds, train_test_split for all nobj x testsize 0.1..0.9 x seeds.
  * mode 1  LeaveOneOut x {PLS, MLR, LDA}
  * mode 2  KFoldCV x {PLS, MLR} for EVERY user label vector in {0..k-1}^n
- * mode 3  BootstrapRandomGroupsCV x {PLS, MLR, LDA}, nthreads = 1, groups 2..n, iterations {1,2,3,4,6,12}
+ * mode 3  BootstrapRandomGroupsCV x {PLS, MLR, LDA}, nthreads 1..3 (workers of a batch run inline, in order), groups 2..n, iterations {1,2,3,4,6,12}
  *
  * Oracles (modes 1-3), all on the real routines:
  *   refit      the value reported for object i equals (the average over iterations of) the prediction of a model
@@ -52,6 +52,18 @@ static int row_id(const double *r, size_t p) {
   for (size_t i = 0; i < GX->row; i++) if (memcmp(GX->data[i], r, p * sizeof(double)) == 0) return (int)i;
   return -1;
 }
+/* bootstrap scheme with several workers: each worker is one complete sweep; to keep the fold log sweep-by-sweep the
+ * workers of a batch are run inline, one after the other, in creation order (same library logic, incl. the merge of the
+ * worker results and the final division; schedule independence itself belongs to C06) */
+static int INLINE_THREADS;
+int __real_pthread_create(pthread_t *, const pthread_attr_t *, void *(*)(void *), void *);
+int __real_pthread_join(pthread_t, void **);
+int __wrap_pthread_create(pthread_t *t, const pthread_attr_t *a, void *(*fn)(void *), void *arg) {
+  if (!INLINE_THREADS) return __real_pthread_create(t, a, fn, arg);
+  fn(arg); memset(t, 0, sizeof *t); return 0;
+}
+int __wrap_pthread_join(pthread_t t, void **r) { if (!INLINE_THREADS) return __real_pthread_join(t, r); if (r) *r = NULL; return 0; }
+
 static void log_call(int kind, matrix *mx, matrix *my, void *model) {
   rec_t r; memset(&r, 0, sizeof r); r.kind = kind; r.model = model; r.yok = 1;
   r.nrow = (int)mx->row; if (r.nrow > NMAX) { r.nrow = NMAX; LOG_OVER = 1; }
@@ -175,7 +187,7 @@ static void run_cv(const cfg_t *c, const call_t *k, matrix *X, matrix *Y, matrix
     uivector *g; NewUIVector(&g, (size_t)c->n); for (int i = 0; i < c->n; i++) g->data[i] = (size_t)k->labels[i];
     KFoldCV(&in, g, at, *pred, *res, (size_t)k->nthreads, NULL, 0);
     DelUIVector(&g);
-  } else BootstrapRandomGroupsCV(&in, (size_t)k->groups, (size_t)k->iters, at, *pred, *res, (size_t)k->nthreads, NULL, 0);
+  } else { INLINE_THREADS = k->nthreads > 1; BootstrapRandomGroupsCV(&in, (size_t)k->groups, (size_t)k->iters, at, *pred, *res, (size_t)k->nthreads, NULL, 0); INLINE_THREADS = 0; }
   IN_CV = 0;
   vx_transition(1);
   if (NONTERM) vx_fail_abort(TICKKEY, "a cross-validation worker exceeded the iteration tick ceiling %ld", vx_tick_ceiling);
@@ -244,7 +256,8 @@ static void cv_case(const cfg_t *c, const call_t *k, int delta_choice) {
     if (cover >= n) { sweeps++; if (groups_in_sweep > maxgroups) maxgroups = groups_in_sweep; memset(seen, 0, sizeof seen); cover = 0; groups_in_sweep = 0; }
   }
   leftover = cover;
-  int want_sweeps = k->scheme == S_BOOT ? k->iters : 1;
+  /* the bootstrap scheme runs whole batches of nthreads sweeps: ceil(iterations/nthreads)*nthreads of them */
+  int want_sweeps = k->scheme == S_BOOT ? ((k->iters + k->nthreads - 1) / k->nthreads) * k->nthreads : 1;
   snprintf(key, sizeof key, "partition|%s|%s", fn, al);
   vx_check(part_ok && leftover == 0 && sweeps == want_sweeps, key, "test sets of the %d observed folds do not form %d partition(s) of the %d objects (complete sweeps %d, leftover %d)", nf, want_sweeps, n, sweeps, leftover);
   if (k->scheme == S_BOOT) vx_check(maxgroups <= k->groups, key, "%d non-empty groups in one sweep, %d requested", maxgroups, k->groups);
@@ -324,7 +337,7 @@ static void cv_case(const cfg_t *c, const call_t *k, int delta_choice) {
   snprintf(key, sizeof key, "leak|%s|%s", fn, al);
   vx_check(leak_i < 0, key, "%s n=%d threads=%d groups=%d iterations=%d: the prediction of object %d changes by %.3g when its own response is changed", al, n, k->nthreads, k->groups, k->iters, leak_i, leak_d);
 
-  if (usable && k->scheme == S_BOOT && k->iters == 1 && c->algo != A_LDA && leak_i < 0) {
+  if (usable && k->scheme == S_BOOT && want_sweeps == 1 && c->algo != A_LDA && leak_i < 0) {
     for (int i = 0; i < n; i++) for (int j = 0; j < n; j++) if (A[i][j] == 2) ambiguous++;
     if (!ambiguous) {
       /* R(i,j) := y_j has no influence on prediction i.  Equivalence relation whose classes are the test groups. */
@@ -408,7 +421,8 @@ static void mode_boot(void) {
   /* groups = 1 leaves an empty training set, small group counts leave too few rows: not judged here (DESIGN 6.0) */
   vx_require(c.n - t >= c.p + 2);
   if (c.algo == A_LDA) vx_require(min_class(&c) - 1 - t >= 1 && c.n - t - 1 - c.ncls >= c.p);
-  call_t k = {S_BOOT, 1, g, it, NULL};
+  int nthr = 1 + vx_choose("threads-1", 3);
+  call_t k = {S_BOOT, nthr, g, it, NULL};
   cv_case(&c, &k, dl);
 }
 
